@@ -941,11 +941,12 @@ func (m *Manager) recoverFromWAL() error {
 
 	// Add recovered memtables to the pool
 	for i, memTable := range memTables {
-		if i == len(memTables)-1 {
-			// The last memtable becomes the active one
-			m.memTablePool.SetActiveMemTable(memTable)
-		} else {
-			// Previous memtables become immutable
+		// Hand every recovered memtable to the pool in log order so reads see
+		// it; the pool demotes the previous one to immutable each time, and
+		// the last memtable stays the active one
+		m.memTablePool.SetActiveMemTable(memTable)
+		if i < len(memTables)-1 {
+			// Previous memtables become immutable and are queued for flushing
 			memTable.SetImmutable()
 			m.immutableMTs = append(m.immutableMTs, memTable)
 		}
